@@ -38,21 +38,53 @@ def prove_with_gen(c, d, mods):
     for attempt in range(4):
         info = extract_c05.extract(d, REPO)
         mine = extract_c05.render(info)
+        rd = extract_c05.extract_reads(REPO, info)
+        info["reads"] = rd
+        mine_rd = extract_c05.render_reads(info, rd)
         nb, ob, di = len(c.broken), c.cov["obligations"], c.cov["discharged"]
         ok = c.prove(mods)
+        # the native driver embeds the generated table: build it now and keep a private copy of the binary
+        exe = lean_exe("drv_c05")
+        priv = os.path.join(d, "drv_c05_private")
         try:
-            same = open(gen).read() == mine
+            shutil.copy(exe, priv)
+            same = open(gen).read() == mine and open(os.path.join(LEAN, "RV", "Gen", "C05Reads.lean")).read() == mine_rd
         except OSError:
             same = False
         if same:
             translator_obligations(c, info)
+            info["drv"] = priv
             return info, ok
         c.log("generated table was rewritten by a concurrent run; rebuilding (attempt %d)" % (attempt + 2))
         del c.broken[nb:]
         c.cov["obligations"], c.cov["discharged"] = ob, di
         time.sleep(2 + 3 * attempt)
     translator_obligations(c, info)
+    info["drv"] = lean_exe("drv_c05")
     return info, ok
+
+
+def read_set_report(c, info):
+    """Python view of the read-set table (the Lean theorems c05_reads_* decide it): names the offending access"""
+    rd = info.get("reads")
+    if not rd:
+        return
+    rules, tj = rd["rules"], info["transient"]
+    per = extract_c05.persisted_member_paths(info)
+    unr = set(rules["unrestricted_classes"])
+    al = {(e["tu"], e["member"]) for e in rules["allowed"]}
+    fi = {(e["tu"], e["member"]): e["key"] for e in rules["findings"]}
+    allacc = {(f, p_) for f in rd["tus"] for p_ in rd["accesses"][f]}
+    cross = [(f, p_) for f, p_ in sorted(allacc) if p_ not in per and tj.get(p_, {}).get("class") not in unr
+             and f not in extract_c05.owners_of(p_, rules, tj)]
+    bad = [x for x in cross if x not in al and x not in fi]
+    for f, p_ in bad[:5]:
+        c.corr_break("read set: %s accesses the not-persisted member %s which it does not own; not reviewed in ref/C05_reads.json" % (f, p_))
+    stale = sorted((al | set(fi)) - allacc)
+    for x in stale[:5]:
+        c.corr_break("read set: ref/C05_reads.json lists an access that no longer exists: %s" % (x,))
+    c.cov["read_sets"] = {"translation_units": len(rd["tus"]), "accesses": len(allacc), "cross_owner_accesses_to_carried_state": len(cross),
+                          "reviewed_allowed": len([x for x in cross if x in al]), "finding_rows": {"%s:%s" % k_: v for k_, v in fi.items()}}
 
 
 def uncovered_members(info):
@@ -731,6 +763,35 @@ def heap_sweep(c, S, info, R, rb):
                         c.violation("lost-element:%s.%s" % (row["name"], m["name"]),
                                     "element member %s of persisted array %s does not survive save+load" % (m["name"], row["name"]),
                                     {"cfg": cfg, "row": row["name"], "member": m["name"], "path": path})
+    # WHFast512 (not compiled on this host, the integrator cannot run): its REB_POINTER_ALIGNED row and its REB_PARTICLE4
+    # row are exercised for persistence only, with hand-made contents
+    cfg = bases[0]
+    for path in ("copy", "buffer", "file"):
+        a = build_sim(rb, cfg); advance(a, 1)
+        sz = info["elems"]["reb_particle_avx512"]["size"]
+        buf = S.libc.malloc(sz)
+        pat = bytes((7 * i + 3) % 251 for i in range(sz))
+        ctypes.memmove(buf, pat, sz)
+        ctypes.c_void_p.from_address(ctypes.addressof(a) + info["by_path"]["ri_whfast512.p_jh"]["off"]).value = buf
+        S.poke(a, "ri_whfast512.N_allocated", 1)
+        m0 = info["by_path"]["ri_whfast512.p_jh0"]
+        esz, slots = R.ptrslots[[r_["id"] for r_ in info["rows"] if r_["name"] == "ri_whfast512.pjh0"][0]]
+        keep = [i for i in range(m0["size"]) if not any(o <= i % esz < o + l for o, l in slots)]
+        pat0 = bytes((5 * i + 1) % 253 for i in range(m0["size"]))
+        old0 = ctypes.string_at(ctypes.addressof(a) + m0["off"], m0["size"])
+        new0 = bytes(pat0[i] if i in set(keep) else old0[i] for i in range(m0["size"]))
+        ctypes.memmove(ctypes.addressof(a) + m0["off"], new0, m0["size"])
+        r, _ = S.restore(a, path)
+        p2 = ctypes.c_void_p.from_address(ctypes.addressof(r) + info["by_path"]["ri_whfast512.p_jh"]["off"]).value
+        got = ctypes.string_at(p2, sz) if p2 else None
+        cnt = S.peek(r, "ri_whfast512.N_allocated")
+        got0 = ctypes.string_at(ctypes.addressof(r) + m0["off"], m0["size"])
+        n += 2
+        c.count(("heap", "ri_whfast512.pjh", path)); c.count(("heap", "ri_whfast512.pjh0", path))
+        if got != pat or cnt != 1:
+            c.violation("lost-element:ri_whfast512.pjh", "the REB_POINTER_ALIGNED array ri_whfast512.p_jh does not survive save+load (%s): count %s" % (path, cnt), {"path": path})
+        if any(got0[i] != new0[i] for i in keep):
+            c.violation("lost:ri_whfast512.p_jh0", "the REB_PARTICLE4 member ri_whfast512.p_jh0 does not survive save+load (%s)" % path, {"path": path})
     c.cov["heap_sweep_cases"] = n
 
 
@@ -859,7 +920,7 @@ def targeted(c, S, rb, rng, thorough):
         cases.append(({"integrator": "bs", "o": {"eps_abs": 10 ** -rng.uniform(9, 13), "eps_rel": 10 ** -rng.uniform(9, 13)},
                        "system": rng.choice(["planets", "close", "peri"]), "save_after": rng.randint(1, 6),
                        "edit": "bs_loosen", "edit_eps": 10 ** -rng.uniform(3, 6)}, "buffer", 6))
-    run_cases(c, S, cases, chunk=4)
+    run_cases(c, S, cases, chunk=4, budget=25)
 
 
 class Rec:
@@ -894,7 +955,7 @@ def replay_events(c, ev, hist, S):
         S.hist[k] = S.hist.get(k, 0) + v
 
 
-def run_cases(c, S, cases, nproc=8, chunk=12):
+def run_cases(c, S, cases, nproc=8, chunk=12, budget=45):
     """run S.one over (cfg, path, k) cases in forked workers; a crashing case is pinned down and reported"""
     rb, info, R = S.rb, S.info, S.R
 
@@ -995,7 +1056,7 @@ def run_cases(c, S, cases, nproc=8, chunk=12):
             c.violation(key, "save/load/continue of a reachable simulation crashes the process (status %d), cfg %s path %s" % (status, cfg_key(cfg), path),
                         {"cfg": cfg, "path": path, "steps": k})
     queue = list(chunks)
-    t_end = time.time() + (1200 if c.thorough else 75)
+    t_end = time.time() + (1200 if c.thorough else budget)
     try:
         os.remove(os.path.join(os.environ.get("VERIF_TMP", "/tmp"), "c05_budget_%d" % os.getpid()))
     except OSError:
@@ -1026,7 +1087,7 @@ def history_cases(c, cfgs):
     (a) every public restore path of a three-snapshot archive"""
     rng, out = c.rng, []
     paths = ["buffer", "file", "copy", "pickle"]
-    nh = 4000 if c.thorough else 500
+    nh = 4000 if c.thorough else 400
     for i in range(nh):
         integ, o = HIST_BASES[rng.next() % len(HIST_BASES)]
         cfg = {"integrator": integ, "o": dict(o), "system": "close" if integ in ("mercurius", "trace") and rng.chance(0.5) else "planets",
@@ -1050,9 +1111,10 @@ def run(c):
     d = build()
     rb = use_scratch_rebound(d)
     info, ok = prove_with_gen(c, d, ["RV.Props.C05"])
-    exe = lean_exe("drv_c05")
+    exe = info["drv"]
     R = Real(rb, info)
     S = Search(c, rb, info, R)
+    read_set_report(c, info)
     c.cov["rule"] = ("lattice of configurations (WHFast 4 coordinates x safe_mode x keep_unsynchronized, kernels, correctors 3..17, corrector2; "
                      "18 SABA types; EOS pairs; IAS15 modes 0-3, epsilon=0; MERCURIUS; TRACE 3 pericentre modes; BS tolerances; JANUS orders; LEAPFROG; SEI; "
                      "test particles types 0/1; variational orders 1,2; MEGNO; collisions direct/line/tree/linetree with merging; tree gravity; boundaries) "
@@ -1083,12 +1145,16 @@ def run(c):
         if c.thorough:
             cases.append((cfg, paths[(i + c.seed + 2) % 4], 23))
     # randomised save points / continuation lengths / paths on top of the lattice (seeded)
-    nf = 20000 if c.thorough else 2000
+    nf = 20000 if c.thorough else 1200
     for i in range(nf):
         cfg = dict(cfgs[c.rng.next() % len(cfgs)])
         cfg["save_after"] = c.rng.randint(0, 12)
         cases.append((cfg, paths[c.rng.next() % 4], c.rng.randint(1, 25)))
-    cases += history_cases(c, cfgs)
+    # deterministic lattice and the archive restore paths first, the seeded random cases after (a wall-clock budget
+    # may cut the tail of the list on a loaded machine: histogram.cases_skipped_wall_budget)
+    hc = history_cases(c, cfgs)
+    nlat = len(cfgs) * (2 if c.thorough else 1)
+    cases = [x for x in hc if x[3] == "archive"] + cases[:nlat] + [x for x in hc if x[3] != "archive"] + cases[nlat:]
     run_cases(c, S, cases)
     c.log("lattice done (%d cases)" % len(cases))
     member_sweep(c, S, info, R, rb)
